@@ -3,6 +3,7 @@ package sim
 import (
 	"encoding/json"
 	"fmt"
+	mh "github.com/multiformats/go-multihash"
 	"time"
 
 	"berty.tech/go-ipfs-log/entry"
@@ -14,7 +15,7 @@ import (
 
 func init() {
 	Register(&Scenario{Prop: "C10", Name: "rejected-do-not-block", Run: scenC10, SoftParks: true, Weight: 1,
-		Rule: "honest writer W, receiver R (ReplicationConcurrency in {1,2,32}) and an adversary; W writes 1-3 entries that R replicates, then 1-4 more while R is cut off (their announcements are lost); after the heal, before any honest exchange, the adversary announces to R 1-3 messages whose head lists mix copies of W's valid current heads with 1-3 rejected heads drawn from {non-writer author, writer's identity block with a foreign signature, entry of another database written by W, valid entry with a wrong claimed hash} at every position (permutation drawn per run), block fetches complete in a drawn order; then W's valid heads are announced again by an honest message (topic announcement, head exchange after the pollers notice the heal, or manual Sync, drawn per run); oracle: at rest R holds every entry W wrote; non-trivial = at least one mixed message (valid and rejected heads together) was processed and R lacked >=1 valid entry before it"})
+		Rule: "honest writer W, receiver R (ReplicationConcurrency in {1,2,32}) and an adversary; W writes 1-3 entries that R replicates, then 1-4 more while R is cut off (their announcements are lost); after the heal, before any honest exchange, the adversary announces to R 1-3 messages whose head lists mix copies of W's valid current heads with 1-3 rejected heads drawn from {non-writer author, writer's identity block with a foreign signature, the same naming a predecessor nobody holds, entry of another database written by W, valid entry with a wrong claimed hash} at every position (permutation drawn per run), block fetches complete in a drawn order; then W's valid heads are announced again by an honest message (topic announcement, head exchange after the pollers notice the heal, or manual Sync, drawn per run); oracle: at rest R holds every entry W wrote; non-trivial = at least one mixed message (valid and rejected heads together) was processed and R lacked >=1 valid entry before it"})
 }
 
 func scenC10(k *K) {
@@ -112,6 +113,16 @@ func scenC10(k *K) {
 				return nil
 			}
 			return e
+		case "forged-dangling":
+			// a forged head (the writer's identity block, a payload the writer never signed)
+			// whose predecessor is a block nobody holds: whoever fetches it waits for good
+			h, _ := mh.Sum([]byte(fmt.Sprintf("nobody-holds-this-%d", n)), mh.SHA2_256, -1)
+			ident, priv := adv.ForgedIdentity("copied-block", W.Identity())
+			e, err := adv.Craft("copied-block", ident, priv, c.Addr, mkPayload(fmt.Sprintf("bad-%d", n)), append([]cid.Cid{cid.NewCidV1(cid.DagCBOR, h)}, next...), maxT+1)
+			if err != nil {
+				return nil
+			}
+			return e
 		case "foreign-db":
 			if foreign == nil {
 				return nil
@@ -135,7 +146,7 @@ func scenC10(k *K) {
 		}
 		return nil
 	}
-	kinds := []string{"nonwriter", "forged-block", "foreign-db", "wrong-hash"}
+	kinds := []string{"nonwriter", "forged-block", "foreign-db", "wrong-hash", "forged-dangling"}
 	mixed := 0
 	nmsg := k.C.Range(1, 3)
 	for m := 0; m < nmsg; m++ {
